@@ -139,6 +139,7 @@ func (o *Outlines) GlyphBBoxPDF(fm matrix.Matrix, gid glyph.ID) (bbox rect.Rect)
 	M = M.Mul(matrix.Scale(1000, 1000))
 
 	first := true
+	var posX, posY float64
 cmdLoop:
 	for _, cmd := range g.Cmds {
 		var x, y float64
@@ -154,6 +155,19 @@ cmdLoop:
 		}
 
 		x, y = M.Apply(x, y)
+
+		if cmd.Op == OpCurveTo && !first {
+			// a curve can extend beyond its end points
+			x1, y1 := M.Apply(cmd.Args[0], cmd.Args[1])
+			x2, y2 := M.Apply(cmd.Args[2], cmd.Args[3])
+			xMin, xMax := bezierRange(posX, x1, x2, x)
+			yMin, yMax := bezierRange(posY, y1, y2, y)
+			bbox.LLx = min(bbox.LLx, xMin)
+			bbox.URx = max(bbox.URx, xMax)
+			bbox.LLy = min(bbox.LLy, yMin)
+			bbox.URy = max(bbox.URy, yMax)
+		}
+		posX, posY = x, y
 
 		if first || x < bbox.LLx {
 			bbox.LLx = x
